@@ -35,6 +35,7 @@ class Ctl:
         self.main_points = 0
         self.resume_main = False
         self.paused_at: str | None = None
+        self.early_resume = False       # the pre-empted main thread goes on as soon as the receiver leaves a critical section
 
     def main_point(self, where: str) -> None:
         """called by the main thread at each of its synchronisation points"""
@@ -158,7 +159,7 @@ class FakeRLock:
         self.lock.release()
         if outer and me == self.ctl.main_ident:
             self.ctl.main_point("lock.exit")
-        if outer and me != self.ctl.main_ident and self.ctl.state == PAUSED:
+        if outer and me != self.ctl.main_ident and self.ctl.state == PAUSED and self.ctl.early_resume:
             # the receiver has completed a critical section while the main thread was pre-empted: now the main thread goes on
             self.ctl.resume()
         if outer and self.ctl.preempt and me != self.ctl.main_ident and self.ctl.main_ident is not None:
@@ -339,7 +340,8 @@ class RealWorker:
                 if self.ctl.state != INPROTO:
                     return "disabled"
                 self.ctl.main_points = 0
-                self.ctl.main_pause_at = int(ws[2])
+                self.ctl.early_resume = ws[2].endswith("e")
+                self.ctl.main_pause_at = int(ws[2].rstrip("e"))
                 self.ctl.stop_flag = ws[1] == "1"
                 self.ctl.release_proto = True
                 self.ctl.state = RUNNING
@@ -458,7 +460,7 @@ def gen(rng: random.Random, res: CompResult) -> tuple[list[str], list[str]]:
                 shut = True
             elif r < 0.74 and rw.ctl.state == INPROTO:
                 # the protocol returns and the main thread is pre-empted inside its next `get()` while a command arrives
-                k = rng.randrange(1, 6)
+                k = f"{rng.randrange(1, 6)}{'e' if rng.random() < 0.4 else ''}"
                 c = rng.random()
                 if c < 0.5 and nxt < RealWorker.NITEMS - 6:
                     n = rng.choice([1, 1, 2, 3])
